@@ -498,3 +498,161 @@ def r12_2(ctx):
                             ok = True
             ctx.ob("chunker:wraps-parser-error", ok, csup.site(n), "the parser/reader error is the payload of the InvalidData error (Display shows it)" if ok else "the chunker replaces the underlying error")
     ctx.ob("chunker:wrap-sites", nw >= 1, site(ch["loop"]), f"{nw} io::Error::new site(s) in the chunker")
+
+
+# --------------------------------------------------------------------------- synthetic end-of-input errors
+
+
+def _kind_variant(b, op):
+    tr = trace(b, op)
+    if tr.origin and tr.origin[0] == "const":
+        return tr.origin[1].get("ref_variant") or tr.origin[1].get("variant")
+    if tr.origin and tr.origin[0] == "agg":
+        return tr.origin[1]["rv"].get("variant")
+    return None
+
+
+def _eof_error_sites(lib):
+    """[(body, block, term)]: calls that build an io::Error of kind UnexpectedEof out of nothing (`ErrorKind::UnexpectedEof.into()`,
+    `io::Error::new(ErrorKind::UnexpectedEof, ..)`, `io::Error::from(kind)`)."""
+    out = []
+    for b in lib.bodies:
+        for bb, t in b.calls():
+            f = fn_of(t) or {}
+            if not t["args"] or t["dest"]["pr"]:
+                continue
+            is_ctor = f.get("def", "").startswith("std::io::Error::new") or f.get("def") == "std::io::Error::other"
+            is_conv = f.get("trait") in ("std::convert::Into", "std::convert::From") and b.local_ty(t["dest"]["l"]) == "std::io::Error"
+            if not (is_ctor or is_conv):
+                continue
+            if _kind_variant(b, t["args"][0]) == "UnexpectedEof":
+                out.append((b, bb, t))
+    return out
+
+
+def _eof_evidence_edges(sup):
+    """Edges of the supergraph on which the source is known to be at its end: `fill_buf()` gave an empty slice
+    (`.is_empty()` true, or a length compared equal to 0), or a `read` returned Ok(0)."""
+    from model import strace
+    edges = []
+
+    def is_fill_head(node, op):
+        tr = strace(sup, node, op, extra=("std::ops::Try::branch",))
+        return bool(tr.origin and tr.origin[0] == "call" and (fn_of(tr.origin[2]) or {}).get("def") == "std::io::BufRead::fill_buf" and any(s_[0] == "downcast" and s_[1] in ("Ok", "Continue") for s_ in tr.steps))
+
+    def is_read_count(node, op):
+        tr = strace(sup, node, op, extra=("std::ops::Try::branch",))
+        return bool(tr.origin and tr.origin[0] == "call" and (fn_of(tr.origin[2]) or {}).get("trait") == "std::io::Read" and (fn_of(tr.origin[2]) or {}).get("name") == "read" and any(s_[0] == "downcast" and s_[1] in ("Ok", "Continue") for s_ in tr.steps))
+
+    for n, b, t in sup.calls():
+        f = fn_of(t) or {}
+        if f.get("name") == "is_empty" and f.get("def", "").startswith("core::slice") and t["args"] and is_fill_head(n, t["args"][0]) and t.get("target") is not None:
+            sw = b.blocks[t["target"]]["term"]
+            if sw["k"] == "switch" and is_place(sw["discr"]) and not sw["discr"]["p"]["pr"] and sw["discr"]["p"]["l"] == t["dest"]["l"]:
+                edges.append(((n[0], t["target"]), "otherwise", (n[0], sw["otherwise"])))
+    for n in sup.nodes():
+        b = sup.body_of(n)
+        blk = b.blocks[n[1]]
+        sw = blk["term"]
+        if sw["k"] != "switch" or not is_place(sw["discr"]):
+            continue
+        zero = [t_ for v_, t_ in sw["targets"] if v_ == 0]
+        d = sw["discr"]
+        # a length switched on directly (`match (have, available.len()) { (_, 0) => .. }`): its 0 arm
+        if zero:
+            lt0 = trace(b, d)
+            src0 = None
+            if lt0.origin and lt0.origin[0] == "rvalue" and lt0.origin[1]["rv"]["k"] == "unop" and lt0.origin[1]["rv"]["op"] == "PtrMetadata":
+                src0 = lt0.origin[1]["rv"]["a"]
+            elif lt0.origin and lt0.origin[0] == "call" and (fn_of(lt0.origin[2]) or {}).get("name") == "len" and lt0.origin[2]["args"]:
+                src0 = lt0.origin[2]["args"][0]
+            if src0 is not None and is_fill_head(n, src0):
+                edges.append((n, 0, (n[0], zero[0])))
+                continue
+        if d["p"]["pr"]:
+            # switch on the read's Ok payload: the 0 arm
+            if zero and is_read_count(n, d):
+                edges.append((n, 0, (n[0], zero[0])))
+            continue
+        # `len == 0` of the fill_buf head (slice pattern `[]`), or a bare length switched on
+        dl = d["p"]["l"]
+
+        def cval(o):
+            v_ = const_value(o)
+            if v_ is None and is_place(o):
+                ct_ = trace(b, o)
+                if ct_.origin and ct_.origin[0] == "const" and all(x[0] == "use" for x in ct_.steps):
+                    v_ = ct_.origin[1].get("v")
+            return v_
+
+        for s_ in blk["stmts"]:
+            if not (s_["k"] == "assign" and not s_["p"]["pr"] and s_["p"]["l"] == dl and s_["rv"]["k"] == "binop"):
+                continue
+            opn, cv_ = s_["rv"]["op"], cval(s_["rv"]["b"])
+            # which edge means `len == 0`: Eq(len,0) true; Ge(len,1) / Gt(len,0) / Ne(len,0) false; Lt(len,1) / Le(len,0) true
+            zero_on_true = (opn == "Eq" and cv_ == 0) or (opn == "Lt" and cv_ == 1) or (opn == "Le" and cv_ == 0)
+            zero_on_false = (opn == "Ge" and cv_ == 1) or (opn == "Gt" and cv_ == 0) or (opn == "Ne" and cv_ == 0)
+            if zero_on_true or zero_on_false:
+                lt = trace(b, s_["rv"]["a"])
+                src = None
+                if lt.origin and lt.origin[0] == "rvalue" and lt.origin[1]["rv"]["k"] == "unop" and lt.origin[1]["rv"]["op"] == "PtrMetadata":
+                    src = lt.origin[1]["rv"]["a"]
+                elif lt.origin and lt.origin[0] == "call" and (fn_of(lt.origin[2]) or {}).get("name") == "len" and lt.origin[2]["args"]:
+                    src = lt.origin[2]["args"][0]
+                if src is not None and is_fill_head(n, src):
+                    if zero_on_true:
+                        edges.append((n, "otherwise", (n[0], sw["otherwise"])))
+                    elif zero:
+                        edges.append((n, 0, (n[0], zero[0])))
+    return edges
+
+
+@rule("R12.4", 1, "an 'unexpected end of input' error of xt's own making is raised only on evidence that the source is at its end (fill_buf() returned nothing, or a read returned 0): data that has merely not arrived yet is not a truncated stream", ["C12", "C02", "C07"])
+def r12_4(ctx):
+    from model import Super, PathSens
+
+    lib = ctx.lib
+    n = 0
+    seen_k = {}
+
+    def _nth_(d, k):
+        d[k] = d.get(k, 0) + 1
+        return d[k] - 1
+
+    for b, bb, t in _eof_error_sites(lib):
+        root = b
+        while root.raw["def_kind"] == "Closure" and root.raw.get("parent") in lib.by_id:
+            root = lib.by_id[root.raw["parent"]]
+        judged = [(root, t, b, bb)]
+        # a body that only builds the error (no reading of its own): judged where it is called
+        reads_here = any((fn_of(tt) or {}).get("trait") in ("std::io::Read", "std::io::BufRead") or (fn_of(tt) or {}).get("local") for _, tt in root.calls())
+        if not reads_here:
+            callers = [(cb, cbb, ct) for cb in lib.bodies for cbb, ct in cb.calls() if ((fn_of(ct) or {}).get("resolved") or (fn_of(ct) or {}).get("def")) == root.id]
+            if root.raw.get("impl_trait") == "std::convert::From" and root.nargs == 1:
+                # `x.into()` / `T::from(x)` resolve to the blanket impl: match the conversion by its two types
+                src_ty, dst_ty = root.local_ty(1), root.local_ty(0)
+                for cb in lib.bodies:
+                    for cbb, ct in cb.calls():
+                        cf = fn_of(ct) or {}
+                        if cf.get("trait") in ("std::convert::Into", "std::convert::From") and ct["args"] and is_place(ct["args"][0]) and cb.local_ty(ct["args"][0]["p"]["l"]) == src_ty and not ct["dest"]["pr"] and cb.local_ty(ct["dest"]["l"]) == dst_ty:
+                            callers.append((cb, cbb, ct))
+            if callers:
+                judged = []
+                for cb, cbb, ct in callers:
+                    r_ = cb
+                    while r_.raw["def_kind"] == "Closure" and r_.raw.get("parent") in lib.by_id:
+                        r_ = lib.by_id[r_.raw["parent"]]
+                    judged.append((r_, ct, cb, cbb))
+        for r, st_, sb_, sbb_ in judged:
+            n += 1
+            sup = Super(lib, r, depth=3)
+            cnodes = [nn for nn, nb, tt in sup.calls() if tt is st_]
+            ev = _eof_evidence_edges(sup)
+            ps = PathSens(sup, payloads=True)
+            reached = ps.explore([(sup.entry, {})], removed_edges=[(a, lab, m) for a, lab, m in ev]) if cnodes else {}
+            bad = [c for c in cnodes if c in reached]
+            ok = bool(cnodes) and bool(ev) and not bad and not ps.overflow
+            ctx.ob(f"eof-error-on-evidence:{r.name}:{sb_.name}:{_nth_(seen_k, (r.id, sb_.id))}", ok, site(sb_, sbb_),
+                   f"every feasible path to this error passes an end-of-source edge ({len(ev)} such edge(s) in `{r.name}`)" if ok else
+                   ("the error site is not reached in its function's supergraph" if not cnodes else "an UnexpectedEof error is built on a path without evidence that the source has ended (buffered data shorter than a unit, a short read, ..): a stream that is merely slow would be reported as truncated"))
+    ctx.ob("eof-error-sites", True, "lib", f"{n} synthetic UnexpectedEof error site(s) examined", trivial=n == 0)
